@@ -69,6 +69,7 @@ type Options struct {
 type World struct {
 	Chain    *chain.Chain
 	Genesis  *block.Block
+	GenesisRound round.RoundI
 	Owner    *Actor
 	Miners   []*Actor
 	Sharders []*Actor
@@ -272,7 +273,9 @@ func New(o Options) *World {
 	go c.StartLFMBWorker(w.Ctx)
 	gr, gb := c.GenerateGenesisBlock(viper.GetString("server_chain.genesis_block.id"), mb, is)
 	c.AddRound(gr)
+	w.GenesisRound = gr
 	c.AddGenesisBlock(gb)
+	c.InitializeMinerPool(mb)
 	w.Genesis = gb
 	return w
 }
@@ -317,6 +320,7 @@ func (w *World) OpenWith(parent *Node, rnd int64, creation common.Timestamp, min
 	b.MinerID = miner.ID
 	b.SetRoundRandomSeed(seed)
 	b.SetPreviousBlock(parent.Block)
+	b.Round = rnd // (SetPreviousBlock sets parent+1; scenarios may jump, e.g. to reach the prune boundary at round 100)
 	b.Hash = encryption.Hash(fmt.Sprintf("verif-block:%s:%d:%d:%s:%s", parent.Block.Hash, rnd, creation, miner.ID, hashSalt))
 	st := block.CreateStateWithPreviousBlock(parent.Block, w.Chain.GetStateDB(), rnd)
 	bc := statecache.NewBlockCache(sc, statecache.Block{Round: rnd, Hash: b.Hash, PrevHash: parent.Block.Hash})
